@@ -16,7 +16,7 @@ import (
 func init() {
 	register(&core.Prop{
 		ID: "C03",
-		Rule: "sources {C, S (sliced view of a larger parent), F, Fconv} x element widths 1,2,4,8,16 bytes and strings x shapes of rank 0-5 (incl. unit axes, vectors, equal-dim cubes): " +
+		Rule: "sources {C, S (sliced view of a larger parent), SS (stepped slice), F, Fconv} x element widths 1,2,4,8,16 bytes and strings x shapes of rank 0-5 (incl. unit axes, vectors, equal-dim cubes): " +
 			"(a) EVERY axis permutation (and the default reversal) through T / UT / Transpose / SafeT / tensor.T / tensor.Transpose; (b) ALL sequences of operation kinds {T(p), T(), UT, Transpose, Materialize, SafeT(p), RollAxis, tensor.T, tensor.Transpose} up to the tier's full length (parameters PRNG-chosen), longer ones sampled, the model carrying the logical array through the sequence; (c) TransposeIndex/UntransposeIndex against the model's permuted rank for every index. " +
 			"After every step the tensor is read through At and compared with the model; after a physical move Data() must be the logical flattening in the tensor's own order with default strides; copies must be storage-disjoint; a sliced source's parent must be untouched outside the view. distinct_nontrivial counts distinct (source, width, shape, op-kind sequence or permutation) keys on tensors of rank>=2 with more than one element.",
 		Assume: []string{"after two stacked lazy transposes both readings of UT (undo the last / undo all) are accepted, nothing else"},
@@ -37,7 +37,7 @@ func c03Types(tier string) []reflect.Type {
 	return []reflect.Type{model.TInt8, model.TInt16, model.TF32, model.TF64, model.TC128, model.TStr}
 }
 
-var c03Sources = []string{gen.LC, gen.LS, gen.LF, gen.LFconv}
+var c03Sources = []string{gen.LC, gen.LS, gen.LSS, gen.LF, gen.LFconv}
 
 func c03Shapes(tier string) [][]int {
 	out := [][]int{{}, {1}, {3}, {4}}
@@ -47,7 +47,7 @@ func c03Shapes(tier string) [][]int {
 		out = append(out, shapesOver(4, []int{1, 2})...)
 		out = append(out, []int{3, 2, 3, 2}, []int{2, 3, 3, 3}, []int{3, 3, 3, 3}, []int{1, 3, 2, 3}, []int{2, 2, 2, 2, 2}, []int{2, 1, 3, 2, 2}, []int{1, 2, 2, 3, 1}, []int{3, 2, 1, 2, 2})
 	} else {
-		out = append(out, []int{2, 3, 4}, []int{2, 2, 2}, []int{3, 3, 3}, []int{1, 3, 2}, []int{3, 1, 2}, []int{2, 3, 1}, []int{1, 1, 3}, []int{3, 1, 1},
+		out = append(out, []int{2, 3, 4}, []int{2, 2, 2}, []int{3, 3, 3}, []int{1, 3, 2}, []int{3, 1, 2}, []int{2, 3, 1}, []int{1, 1, 3}, []int{3, 1, 1}, []int{1, 3, 1}, []int{1, 4, 1, 1},
 			[]int{2, 3, 2, 2}, []int{2, 2, 2, 2}, []int{1, 3, 2, 1}, []int{3, 2, 1, 2}, []int{2, 2, 2, 2, 2}, []int{2, 1, 3, 2, 2})
 	}
 	return out
@@ -530,8 +530,8 @@ func (j *c03Judge) start(c *core.Ctx, t reflect.Type) *c03State {
 		c.Inconclusive("operand-precondition:" + j.src)
 		return nil
 	}
-	st := &c03State{d: op.D, cur: m, op: op, isRoot: j.src != gen.LS, colMaj: j.src == gen.LF || j.src == gen.LFconv}
-	if j.src == gen.LS {
+	st := &c03State{d: op.D, cur: m, op: op, isRoot: j.src != gen.LS && j.src != gen.LSS, colMaj: j.src == gen.LF || j.src == gen.LFconv}
+	if j.src == gen.LS || j.src == gen.LSS {
 		st.snap = op.Snap()
 	}
 	return st
